@@ -302,7 +302,7 @@ Definition set_license (p : para) (name text : str) : list (str * fval) :=
   map (fun kv => if str_eqb (fst kv) (lit "license") then (fst kv, VLicense name text) else kv) (p_fields p).
 
 Definition fold_pair (p1 p2 : para) : para :=
-  let text := join [10] (map snd (para_to_dict p2)) in
+  let text := join [10] (filter (fun v => nonempty v) (map snd (para_to_dict p2))) in
   let '(f2, e2) := first_last p2 in
   let start := match dict_get (lit "license") (p_lines p1) with Some (s, _) => s | None => f2 end in
   mkPara (p_type p1) (set_license p1 [] text) (p_extra p1) (dict_put (lit "license") (start, e2) (p_lines p1)).
